@@ -14,7 +14,7 @@ def Ty.WF (cfg : Cfg) (t : Ty) : Prop :=
   | .tuple ts _ => ∀ t', ∀ (_ : t' ∈ ts), Ty.WF cfg t'
   | .struct ms => (ms.map (·.1)).Nodup ∧ ∀ m, ∀ (_ : m ∈ ms), Ty.WF cfg m.2.2
   | .variant ts => ∀ t', ∀ (_ : t' ∈ ts), Ty.WF cfg t'
-  | .optional t' | .notUndef t' | .typ t' | .sensitive t' | .iterable t' => Ty.WF cfg t'
+  | .optional t' | .notUndef t' | .typ t' | .sensitive t' | .iterator t' | .iterable t' => Ty.WF cfg t'
   | _ => True
 termination_by t.w
 decreasing_by
@@ -34,7 +34,7 @@ def Ty.Ref (t : Ty) : Prop :=
   | .tuple ts _ => ∀ t', ∀ (_ : t' ∈ ts), Ty.Ref t'
   | .struct ms => ∀ m, ∀ (_ : m ∈ ms), Ty.Ref m.2.2
   | .variant ts => ∀ t', ∀ (_ : t' ∈ ts), Ty.Ref t'
-  | .optional t' | .notUndef t' | .sensitive t' => Ty.Ref t'
+  | .optional t' | .notUndef t' | .sensitive t' | .iterator t' => Ty.Ref t'
   | _ => True
 termination_by t.w
 decreasing_by
